@@ -343,11 +343,25 @@ def snap(obj):
     return {"value": json.dumps(dg(obj), sort_keys=True)}
 
 
-_GEN = re.compile(r"sys\[\d+\]")
+_GEN = re.compile(r"sys\[(\d+)\]")
 
 
 def canon_value(v):
-    return _GEN.sub("sys[*]", json.dumps(dg(v), sort_keys=True))
+    """canonical value of a result with the counter inside generated names taken out: the
+    generated names that occur are numbered in the order of their counters (sys[#000], sys[#001]
+    ...) and dictionaries keyed by such names are sorted *after* the renaming - sorted before, the
+    entries of e.g. `syslist_index` swap places when the counter goes from 99 to 100 between two
+    evaluations of a probe ("sys[100]" < "sys[99]" as strings), which is not a difference"""
+    s = json.dumps(dg(v), sort_keys=True)
+    nums = sorted({int(x) for x in _GEN.findall(s)})
+    if not nums:
+        return s
+    rank = {n: i for i, n in enumerate(nums)}
+    s = _GEN.sub(lambda m: "sys[#%03d]" % rank[int(m.group(1))], s)
+    try:
+        return json.dumps(json.loads(s), sort_keys=True)
+    except ValueError:
+        return s
 
 
 def kind_of(obj):
@@ -1301,7 +1315,13 @@ class C19(Family):
             "constraint objects) and flat-system trajectories; two sweeps enumerated on every run on randomly drawn "
             "systems: every 'identity form' (0 + S, S * 1, sum([S]), parallel(0, S), series(S), ss(S), S ** 1 ...) on "
             "SISO / MIMO StateSpace, TransferFunction, FRD, static and dynamic nonlinear systems, with naming keywords "
-            "in the call or the result renamed afterwards, and chains of calls on one problem object; "
+            "in the call or the result renamed afterwards, chains of calls on one problem object, and every reading "
+            "operation (poles / zeros / damp / gains / responses / default frequency and time ranges / conversions / "
+            "transformations / Riccati, Lyapunov and pole-placement functions on the system's own matrices / plots) on "
+            "state-space systems with >= 2 states whose A has a general structure (full, lower triangular, companion, "
+            "complex-pole blocks, Hessenberg: not the Schur form an in-place LAPACK reduction leaves alone) and whose "
+            "matrices are column-major (np.asfortranarray data, a dual system built from transposed arrays, the result "
+            "of similarity_transform, copies of such systems), non-contiguous or row-major; "
             "parameter-protocol histories over an interconnected system with recording subsystems; a "
             "case is non-trivial when it has >= 3 executed calls of >= 2 different kinds")
 
@@ -1517,6 +1537,26 @@ class C19(Family):
             and any(isinstance(x, (int, float)) and not isinstance(x, bool) and x in (0, 1) for x in s[3][:3]) for s in ops)
         st["has_result_renamed_by_caller"] = any(s[2] in MUTATORS for s in ops)
         st["has_flat_system"] = any(s[0] == "new" and s[2] == "flat" for s in steps)
+        # state-space systems built from column-major data (np.asfortranarray / transposed arrays)
+        # and systems whose A is not upper triangular (an in-place LAPACK reduction would change it)
+        colmajor = {s[1] for s in steps if s[0] == "new" and ((s[2] == "arr" and s[3].get("order") == "F")
+                                                              or (s[2] == "view" and s[3].get("how") == "T"))}
+        specs = {s[1]: s[3] for s in steps if s[0] == "new"}
+
+        def a_of(sp):
+            a = sp["abcd"][0]
+            return (a["s"], specs.get(a["s"], {})) if is_ref(a) and "s" in a else (None, {"v": a})
+        ssnew = [a_of(s[3]) for s in steps if s[0] == "new" and s[2] == "ss"]
+        st["has_column_major_system"] = any(slot in colmajor and (sp.get("shape") or [len(sp.get("v") or [])])[0] > 1
+                                            for slot, sp in ssnew)
+        st["has_general_state_matrix"] = any(
+            isinstance(sp.get("v"), list) and sp["v"] and isinstance(sp["v"][0], list)
+            and any(sp["v"][i][j] != 0 for i in range(len(sp["v"])) for j in range(min(i, len(sp["v"][i]))))
+            for slot, sp in ssnew) or any(s[0] == "new" and s[2] == "view" and s[3].get("how") == "T"
+                                          and s[1] in {x for x, _ in ssnew} for s in steps)
+        st["has_system_matrices_as_arguments"] = any(
+            s[0] in ("op", "probe") and s[2] not in ("ssdata",) and "item" in json.dumps(s[3]) and
+            any(t[0] == "op" and t[2] == "ssdata" and t[1] in slots_in(s[3], []) for t in steps) for s in steps)
         st["has_probe_pair"] = any(r["outs"] and r["outs"][-1][0] == "probe" and r["outs"][-1][1] is not None
                                    for r in impl.get("trace", []))
         return st
